@@ -79,3 +79,19 @@ Qed.
 (* the handlers the model consults exist in the source (each is `except X: raise AssemblerError(.., item.line)`) *)
 Lemma handlers_present : conv_instr_ve = true /\ conv_seq_int = true /\ conv_seq_pack = true /\ conv_pack = true.
 Proof. repeat split; reflexivity. Qed.
+
+(* every label update of the size-changing passes has the shape the model's shrink_after has: {k: v - D if v > position}, with
+   D = old size - new size (4 - 2 for a compressed instruction, 8 - 4 for the near form of li / call / tail, size() - padding
+   for an align) *)
+Definition update_ok (u : string * string * string) : bool :=
+  let '(p, op, d) := u in
+  String.eqb op ">" &&
+  (if String.eqb p "transform_compressible" then String.eqb d "2"
+   else if String.eqb p "transform_pseudo_instructions" then String.eqb d "4"
+   else if String.eqb p "resolve_aligns" then String.eqb d "shrink"
+   else false).
+Lemma label_updates_ok :
+  forallb update_ok label_updates = true /\
+  forallb (fun p => existsb (fun u => String.eqb (fst (fst u)) p) label_updates)
+          ["transform_compressible"; "transform_pseudo_instructions"; "resolve_aligns"] = true.
+Proof. split; vm_compute; reflexivity. Qed.
